@@ -217,6 +217,10 @@ func main() {
 		childMain()
 		return
 	}
+	if len(os.Args) >= 6 && os.Args[1] == "crashchild" {
+		crashChildMain()
+		return
+	}
 	if len(os.Args) < 6 {
 		names := []string{}
 		for k := range registry {
